@@ -31,7 +31,7 @@
 From stdpp Require Import gmap.
 From Verif.Common Require Import Sync.
 From Verif.C02 Require Import Model Spec.
-From Verif.C01 Require Import Model Spec Compose Instances Passthru.
+From Verif.C01 Require Import Model Spec Compose Instances Passthru L3Reflag.
 From Verif.C01 Require InstC04 InstC07.
 
 (* --- the graph model: a synchronous producer->consumer composition runs the consumer on everything the producer emitted *)
@@ -128,6 +128,30 @@ Example c01_pools_example :
   same_dp (n_outs (graph pool_passthru true) h) (n_outs (graph pool_passthru true) (fresh [(3, 30); (1, 10)]%N)) = true
   /\ bool_decide (n_outs (graph pool_passthru true) h = n_outs (graph pool_passthru true) (fresh [(3, 30); (1, 10)]%N)) = false.
 Proof. exact pool_example. Qed.
+
+(* --- a node that is NOT history-free as pinned: the L3 route resolver's block / contained-address interplay
+       (L3Reflag.v: block entries, per-address block entries, workload references, dirty marking, flush) *)
+(* repaired code (a block-CIDR change re-flags the contained CIDRs): after ANY history of block / borrowed-address /
+   workload updates the emitted route table is exactly the table computed from the current inputs *)
+Theorem c01_l3_block_reflag_fixed_exact : forall (blk : N -> N) ops c,
+  net RT (n_outs (l3_node blk true) ops) !! c = route_of blk (net L3IN ops) c.
+Proof. intros blk ops c. exact (l3_fixed_table_exact blk ops c). Qed.
+Print Assumptions c01_l3_block_reflag_fixed_exact.
+
+Theorem c01_l3_block_reflag_fixed_history_free : forall (blk : N -> N) ops1 ops2,
+  net L3IN ops1 = net L3IN ops2 ->
+  net RT (n_outs (l3_node blk true) ops1) = net RT (n_outs (l3_node blk true) ops2).
+Proof. exact l3_fixed_history_free. Qed.
+Print Assumptions c01_l3_block_reflag_fixed_history_free.
+
+(* pinned code: the statement is FALSE of the model - same final inputs, two orders, two route tables (and the repaired
+   code agrees on them).  Replayed on the real L3RouteResolver: known finding block-update-leaves-contained-routes-stale. *)
+Theorem c01_l3_block_reflag_refuted :
+  net L3IN l3_witness_a = net L3IN l3_witness_b /\
+  bool_decide (net RT (n_outs (l3_node (fun _ => 5%N) false) l3_witness_a) = net RT (n_outs (l3_node (fun _ => 5%N) false) l3_witness_b)) = false /\
+  bool_decide (net RT (n_outs (l3_node (fun _ => 5%N) true) l3_witness_a) = net RT (n_outs (l3_node (fun _ => 5%N) true) l3_witness_b)) = true.
+Proof. exact l3_pinned_refuted. Qed.
+Print Assumptions c01_l3_block_reflag_refuted.
 
 (* --- node lemmas imported from the properties that own the node models *)
 Module IPSetIndex.
